@@ -197,7 +197,15 @@ pub fn execute(seed: u64, sc: &Scenario, stats: &mut Stats) -> Result<(), Violat
     }
 
     // (c) real rayon pools; (d) concurrent callers on a real pool
-    for &n in &sc.rayon_sizes {
+    // A stream with patches can deadlock on a real pool (known finding F23); every such hang leaks
+    // the blocked caller thread and its pool. After two hangs in this worker process the real-pool
+    // legs are skipped for streams with patches: the finding is on record, more leaks add nothing.
+    let has_patches = sc.case.tag(String::new()).contains("+patches");
+    let skip_real_pools = has_patches && crate::harness::HANGS.load(std::sync::atomic::Ordering::Relaxed) >= 2;
+    if skip_real_pools {
+        stats.probe("real_pool_legs_skipped_after_patch_deadlocks");
+    }
+    for &n in sc.rayon_sizes.iter().filter(|_| !skip_real_pools) {
         for rep in 0..sc.rayon_reps {
             crate::harness::heartbeat("rayon");
             let pool = JxlThreadPool::rayon(Some(n));
@@ -252,7 +260,7 @@ pub fn execute(seed: u64, sc: &Scenario, stats: &mut Stats) -> Result<(), Violat
             stats.schedules.insert(pool.schedule_hash());
             variants.push((format!("simulated schedule {ps}"), r));
         }
-        for &n in &sc.rayon_sizes {
+        for &n in sc.rayon_sizes.iter().filter(|_| !skip_real_pools) {
             for rep in 0..sc.rayon_reps.max(2) {
                 variants.push((format!("{n}-thread rayon pool, repetition {rep}"), partial_render(prefix, JxlThreadPool::rayon(Some(n)), None)));
             }
